@@ -2388,7 +2388,7 @@ class Converter:
                 rows.append(row)
         with path.open("w", newline="") as file_out:
             writer = csv.writer(file_out, delimiter=delimiter)
-            if _header:
+            if _header is not None:
                 writer.writerow(_header)
             writer.writerows(rows)
 
